@@ -12,6 +12,7 @@ import (
 	"strconv"
 	"strings"
 	"sync"
+	"sync/atomic"
 	"testing"
 	"time"
 
@@ -39,6 +40,10 @@ type c15Scenario struct {
 	ReopenFail bool   `json:"reopen_fail"`  // after start: a transient end whose re-open keeps failing (5 retries)
 	LoadOmit   []int  `json:"load_omit"`    // vb indices missing from the dump the store returns (checkpoints written under another assignment)
 	FileDump   string `json:"file_dump"`    // "" | partial | corrupt : real file backend with such a checkpoint file
+	// EndDuringOpen k>0: while the start-up is requesting the k-th assigned vBucket, the server ends the (already open)
+	// stream of the first one with a transient cause. EndReopenFails: the re-open of that vBucket keeps failing.
+	EndDuringOpen  int  `json:"end_during_open,omitempty"`
+	EndReopenFails bool `json:"end_reopen_fails,omitempty"`
 }
 
 func (sc c15Scenario) rangeOf() (int, int) { return c16Range(sc.NumVb, sc.Total, sc.Member) }
@@ -171,8 +176,13 @@ func c15Child(raw json.RawMessage) any {
 		if (openBad[vb] && nth == 0) || (r && sc.ReopenFail) {
 			return fmt.Errorf("injected open failure")
 		}
+		if sc.EndDuringOpen > 0 && sc.EndReopenFails && vb == uint16(lo) && nth >= 1 {
+			return fmt.Errorf("injected open failure")
+		}
 		return nil
 	}
+	var endOnce sync.Once
+	var endInjected atomic.Bool
 	cl.onOpen = func(vb uint16) {
 		var start uint64
 		for _, r := range cl.openLog() {
@@ -184,6 +194,24 @@ func c15Child(raw json.RawMessage) any {
 		h := high[vb]
 		mu.Unlock()
 		fmt.Printf("OPEN %d %d %d\n", vb, start, h)
+		if sc.EndDuringOpen > 0 && n >= 2 && vb == uint16(lo+1+(sc.EndDuringOpen-1)%(n-1)) {
+			endOnce.Do(func() {
+				// streams are requested concurrently: wait until the first vBucket's request has been answered
+				var o couchbase.Observer
+				for t0 := time.Now(); time.Since(t0) < 2*time.Second; time.Sleep(time.Millisecond) {
+					if o = cl.observer(uint16(lo)); o != nil {
+						break
+					}
+				}
+				if o == nil {
+					fmt.Println("END_SKIPPED")
+					return
+				}
+				fmt.Println("END_DURING_OPEN")
+				endInjected.Store(true)
+				o.End(models.DcpStreamEnd{VbID: uint16(lo)}, gocbcore.ErrDCPStreamStateChanged)
+			})
+		}
 	}
 	cons := &fakeConsumer{onEvent: func(d *delivered) {
 		fmt.Printf("CONSUME %d %d\n", d.Vb, d.Seq)
@@ -211,9 +239,27 @@ func c15Child(raw json.RawMessage) any {
 		fmt.Println("NOT_READY")
 		return map[string]any{"ready": false}
 	}
+	skip := map[uint16]bool{}
+	if sc.EndDuringOpen > 0 && n >= 2 && endInjected.Load() {
+		// the ended stream carries nothing more; its vBucket is covered again once it has been requested again
+		deadline := time.Now().Add(8 * time.Second) // beyond the 5 re-open attempts
+		for cl.openCountOf(uint16(lo)) < 2 && time.Now().Before(deadline) {
+			time.Sleep(5 * time.Millisecond)
+		}
+		if cl.openCountOf(uint16(lo)) < 2 {
+			fmt.Println("NOT_REOPENED")
+			skip[uint16(lo)] = true
+		} else if sc.EndReopenFails {
+			time.Sleep(8 * time.Second)
+			fmt.Println("SURVIVED_REOPEN_FAILURE")
+		}
+	}
 	// the session streams: one event per assigned vBucket
 	for i := 0; i < n; i++ {
 		vb := uint16(lo + i)
+		if skip[vb] {
+			continue
+		}
 		o := cl.observer(vb)
 		var start uint64
 		for _, r := range cl.openLog() {
@@ -274,6 +320,24 @@ func c15Exec(sc c15Scenario) string {
 	if r.TimeOut {
 		return "start-up neither failed nor finished (hang): " + strings.ReplaceAll(r.Stdout, "\n", " | ")
 	}
+	if want == "" && sc.EndDuringOpen > 0 && n >= 2 && strings.Contains(r.Stdout, "END_DURING_OPEN") {
+		if sc.EndReopenFails {
+			if strings.Contains(r.Stdout, "SURVIVED_REOPEN_FAILURE") || strings.Contains(r.Stdout, "NOT_REOPENED") || r.Exit == 0 {
+				return "a stream ended during start-up and could not be re-opened, yet the client kept running on the rest of its assignment: " + strings.ReplaceAll(r.Stdout, "\n", " | ")
+			}
+			if !strings.Contains(r.Stderr, "injected open failure") {
+				return "client died after the failing re-open, but not with the open error: " + firstLine(r.Stderr)
+			}
+			return ""
+		}
+		if strings.Contains(r.Stdout, "NOT_REOPENED") {
+			return fmt.Sprintf("the stream of vb %d ended (transient cause) while the start-up was still requesting other vBuckets and was never requested again: the session runs on %d of its %d vBuckets", lo, n-1, n)
+		}
+		if !ready || r.Exit != 0 || consumed != n || !strings.Contains(r.Stdout, "STOPPED") {
+			return fmt.Sprintf("start-up with a transient stream end in its middle: ready=%v exit=%d delivered %d of %d: %s %s", ready, r.Exit, consumed, n, firstLine(r.Stderr), strings.ReplaceAll(r.Stdout, "\n", " | "))
+		}
+		return ""
+	}
 	if want == "" && !sc.ReopenFail {
 		// control group: the same configuration without a fault must start and cover its whole assignment
 		if !ready || r.Exit != 0 {
@@ -323,7 +387,7 @@ func c15Gen(rt *rapid.T) c15Scenario {
 	n := hi - lo + 1
 	sc.High = rapid.SliceOfN(rapid.IntRange(0, 40), 1, 6).Draw(rt, "high")
 	relGen := rapid.SampledFrom([]int{9, 9, -2, -1, 0, 0})
-	kind := rapid.SampledFrom([]string{"control", "control", "above", "above", "load", "seqno", "failover", "open", "open", "membership", "metadata", "leader", "reopen", "multi", "partial_load", "partial_load", "file_dump"}).Draw(rt, "kind")
+	kind := rapid.SampledFrom([]string{"control", "control", "above", "above", "load", "seqno", "failover", "open", "open", "membership", "metadata", "leader", "reopen", "multi", "partial_load", "partial_load", "file_dump", "end_during_open", "end_during_open", "end_during_open", "end_during_open"}).Draw(rt, "kind")
 	if kind == "failover" {
 		relGen = rapid.Just(9)
 		sc.Reset = "latest"
@@ -352,6 +416,14 @@ func c15Gen(rt *rapid.T) c15Scenario {
 		sc.LeaderType = rapid.SampledFrom([]string{"Kubernetes", "etcd", "x"}).Draw(rt, "ltype")
 	case "reopen":
 		sc.ReopenFail = true
+	case "end_during_open":
+		sc.EndDuringOpen = rapid.IntRange(1, 8).Draw(rt, "endat")
+		sc.EndReopenFails = rapid.IntRange(0, 2).Draw(rt, "endfail") == 0
+		for i := range sc.Rel {
+			if sc.Rel[i] > 0 {
+				sc.Rel[i] = 0
+			}
+		}
 	case "partial_load":
 		if n >= 2 {
 			sc.LoadOmit = rapid.SliceOfNDistinct(rapid.IntRange(0, n-1), 1, n-1, func(i int) int { return i }).Draw(rt, "omit")
@@ -416,9 +488,15 @@ func TestC15_FailFast(t *testing.T) {
 			if sc.ReopenFail {
 				lab = "fault_reopen_exhausted"
 			}
+			if sc.EndDuringOpen > 0 && hi-lo+1 >= 2 {
+				lab = "end_during_open_reopened"
+				if sc.EndReopenFails {
+					lab = "fault_end_during_open_reopen_exhausted"
+				}
+			}
 		}
 		partial := (len(sc.OpenErr) > 0 && len(sc.OpenErr) < hi-lo+1) || (len(sc.FailoverEr) > 0 && len(sc.FailoverEr) < hi-lo+1)
-		record("C15", sc, (want != "" || sc.ReopenFail) && (partial || hi-lo+1 >= 2), lab, "cases")
+		record("C15", sc, (want != "" || sc.ReopenFail || sc.EndDuringOpen > 0) && (partial || hi-lo+1 >= 2), lab, "cases")
 	}
 }
 
